@@ -62,7 +62,7 @@ func sigResults(sig *types.Signature) types.Type {
 }
 
 // applyCall encodes one call.  v is the SSA value of the call (nil for deferred calls).
-func (f *frame) applyCall(c *ssa.CallCommon, v ssa.Value, pos token.Pos, deferred bool) SV {
+func (f *frame) applyCall(c *ssa.CallCommon, v ssa.Value, pos token.Pos, deferred bool) (result SV) {
 	e := f.enc
 	base := f.prefix + "call"
 	if v != nil {
@@ -112,7 +112,15 @@ func (f *frame) applyCall(c *ssa.CallCommon, v ssa.Value, pos token.Pos, deferre
 	for i, a := range c.Args {
 		args[i] = f.get(a)
 	}
+	matches := f.noteCall(key, args)
+	if len(matches) > 0 {
+		defer func() { f.noteCallResult(matches, result) }()
+	}
 	fc := e.E.CS.Funcs[key]
+	if mc, ok := c.Value.(*ssa.MakeClosure); ok && fc == nil && e.depth < 6 && len(callee.Blocks) > 0 && len(callee.Blocks) <= 12 && !hasLoop(callee) {
+		// direct call of a local closure: the body is inlined with its captured variables
+		return f.inlineClosure(callee, mc, args, base, resT, pos)
+	}
 	if fc != nil && fc.Inline && callee != f.fn && e.depth < 6 && len(callee.Blocks) > 0 {
 		return f.inlineCall(callee, fc, args, base, resT, pos)
 	}
@@ -260,7 +268,12 @@ func (f *frame) contractCall(callee *ssa.Function, fc *FuncContract, args []SV, 
 	if pureCond != "" {
 		f.curHeap = f.mergeHeaps([]string{pureCond, not(pureCond)}, []Heap{oldHeap, f.curHeap})
 	}
-	res := f.resultHavoc(base, resT)
+	var res SV
+	if fc.Logical {
+		res = f.logicalApp(callee, fc, args)
+	} else {
+		res = f.resultHavoc(base, resT)
+	}
 	nb := map[string]SV{}
 	for k, v := range bind {
 		nb[k] = v
@@ -282,6 +295,12 @@ func (f *frame) havocModifies(fc *FuncContract, callee *ssa.Function, bind map[s
 	for _, m := range fc.Modifies {
 		if m == "*" {
 			w["*"] = true
+			continue
+		}
+		if ks, ok := e.modifiesSpecial(m, callee.Pkg.Pkg); ok {
+			for _, k := range ks {
+				w[k] = true
+			}
 			continue
 		}
 		parts := strings.SplitN(m, ".", 2)
@@ -318,6 +337,10 @@ func (f *frame) havocModifies(fc *FuncContract, callee *ssa.Function, bind map[s
 // ---------------------------------------------------------------------------
 
 func (f *frame) inlineCall(callee *ssa.Function, fc *FuncContract, args []SV, base string, resT types.Type, pos token.Pos) SV {
+	return f.inlineCallWith(callee, fc, args, base, resT, pos, nil)
+}
+
+func (f *frame) inlineCallWith(callee *ssa.Function, fc *FuncContract, args []SV, base string, resT types.Type, pos token.Pos, setup func(*frame)) SV {
 	e := f.enc
 	e.depth++
 	defer func() { e.depth-- }()
@@ -326,6 +349,9 @@ func (f *frame) inlineCall(callee *ssa.Function, fc *FuncContract, args []SV, ba
 	nf.parent = f
 	for i, p := range callee.Params {
 		nf.vals[p] = args[i]
+	}
+	if setup != nil {
+		setup(nf)
 	}
 	nf.encodeBody(f.curPC, f.curHeap)
 	for _, li := range nf.loopHeads {
@@ -371,6 +397,26 @@ func (f *frame) inlineCall(callee *ssa.Function, fc *FuncContract, args []SV, ba
 		return SV{t: resT, tuple: parts}
 	}
 	return mergeVal(0, resT)
+}
+
+func hasLoop(fn *ssa.Function) bool {
+	for _, b := range fn.Blocks {
+		for _, s := range b.Succs {
+			if s.Dominates(b) {
+				return true
+			}
+		}
+	}
+	return false
+}
+
+func (f *frame) inlineClosure(callee *ssa.Function, mc *ssa.MakeClosure, args []SV, base string, resT types.Type, pos token.Pos) SV {
+	fc := &FuncContract{Key: funcKey(callee), Inline: true, Invariants: map[int][]*Clause{}, Decreases: map[int]*Clause{}}
+	return f.inlineCallWith(callee, fc, args, base, resT, pos, func(nf *frame) {
+		for i, fv := range callee.FreeVars {
+			nf.vals[fv] = f.get(mc.Bindings[i])
+		}
+	})
 }
 
 // ---------------------------------------------------------------------------
@@ -557,22 +603,38 @@ func structKeys(t types.Type, w map[string]bool) {
 }
 
 // instrWrites adds the heap keys instruction in may write to w.
+// addrRoot follows FieldAddr/IndexAddr chains to the value the address is derived from.
+func addrRoot(v ssa.Value) ssa.Value {
+	for {
+		switch a := v.(type) {
+		case *ssa.FieldAddr:
+			v = a.X
+		case *ssa.IndexAddr:
+			if _, isPtr := a.X.Type().Underlying().(*types.Pointer); isPtr {
+				v = a.X
+			} else {
+				return v
+			}
+		default:
+			return v
+		}
+	}
+}
+
 func (E *Engine) instrWrites(_ *FnEnc, in ssa.Instruction, w map[string]bool) {
 	switch x := in.(type) {
 	case *ssa.Store:
+		if _, ok := addrRoot(x.Addr).(*ssa.Alloc); ok {
+			// memory allocated by this activation: not a write to anything the caller
+			// could have observed before the call (weak purity)
+			return
+		}
 		addrKeys(x.Addr, w)
 	case *ssa.MapUpdate:
 		mt := x.Map.Type().Underlying().(*types.Map)
 		n := mangle(scratchReg.sortOf(mt.Key())) + ".." + mangle(scratchReg.sortOf(mt.Elem()))
 		w["M_"+n] = true
 		w["MP_"+n] = true
-	case *ssa.Alloc:
-		structKeys(x.Type().(*types.Pointer).Elem(), w)
-		if arr, ok := x.Type().(*types.Pointer).Elem().Underlying().(*types.Array); ok {
-			w["E_"+mangle(scratchReg.sortOf(arr.Elem()))] = true
-		}
-	case *ssa.MakeSlice:
-		w["E_"+mangle(scratchReg.sortOf(x.Type().Underlying().(*types.Slice).Elem()))] = true
 	case *ssa.Call:
 		E.callWrites(&x.Call, w)
 	case *ssa.Defer:
@@ -668,4 +730,121 @@ func libReadsOnly(fn *ssa.Function) bool {
 		return true
 	}
 	return false
+}
+
+// logicalApp: the result of a "logical" function is the application of an uninterpreted
+// function to its arguments, so two calls with equal arguments give equal results and the
+// function can be named in specifications.
+func (f *frame) logicalApp(callee *ssa.Function, fc *FuncContract, args []SV) SV {
+	e := f.enc
+	sig := callee.Signature
+	if sig.Results().Len() != 1 {
+		bail("logical function %s must have one result", fc.Key)
+	}
+	rt := sig.Results().At(0).Type()
+	var ss, ts []string
+	for _, a := range args {
+		if a.loc != nil || a.tuple != nil {
+			bail("logical function with address/tuple argument")
+		}
+		ss = append(ss, e.R.sortOf(a.t))
+		ts = append(ts, a.term)
+	}
+	name := "lf!" + mangle(fc.Key)
+	e.R.extra(fmt.Sprintf("(declare-fun %s (%s) %s)", name, strings.Join(ss, " "), e.R.sortOf(rt)))
+	e.note("logical function " + fc.Key + ": assumed to be a deterministic function of its arguments (no dependence on the heap)")
+	return SV{t: rt, term: fmt.Sprintf("(%s %s)", name, strings.Join(ts, " "))}
+}
+
+func ghostCallKey(k int) string { return fmt.Sprintf("ghost!call!%d", k) }
+
+// noteCall updates the ghost flags of the function's "calls" clauses at a call site.
+func ghostRetKey(k int) string { return fmt.Sprintf("ghost!ret!%d", k) }
+
+// noteCallResult records the result of a matching call for "calls ... as name".
+func (f *frame) noteCallResult(matches map[int]string, res SV) {
+	e := f.enc
+	if res.tuple != nil || res.loc != nil || res.term == "" {
+		return
+	}
+	for k, m := range matches {
+		cs := e.top.contract.Calls[k]
+		if cs.As == "" {
+			continue
+		}
+		sortS := e.R.sortOf(res.t)
+		gk := ghostRetKey(k)
+		e.R.heapDecl[gk] = sortS
+		cur, ok := f.curHeap[gk]
+		if !ok {
+			cur = e.zeroValue(res.t)
+		}
+		f.curHeap[gk] = e.define(e.fresh(gk), sortS, ite(m, res.term, cur))
+		e.top.ghostRetTypes[k] = res.t
+	}
+}
+
+func (f *frame) noteCall(key string, args []SV) map[int]string {
+	e := f.enc
+	top := e.top
+	if top == nil || top.contract == nil || len(top.contract.Calls) == 0 {
+		return nil
+	}
+	matches := map[int]string{}
+	defer func() {}()
+	for k, cs := range top.contract.Calls {
+		if cs.Callee != key || len(cs.Args) != len(args) {
+			continue
+		}
+		bind := top.selfBind()
+		ctx := &evalCtx{f: f, pkg: top.fn.Pkg.Pkg, bind: bind, heap: f.curHeap, oldHeap: top.entryHeap, oldBind: bind, what: "calls clause of " + top.contract.Key}
+		ctx.lookup = func(name string) (SV, bool) { return top.resolveName(name) }
+		var eqs []string
+		for i, a := range cs.Args {
+			if a == "_" {
+				continue
+			}
+			if args[i].loc != nil || args[i].tuple != nil {
+				continue
+			}
+			ex, err := parseExprText(a)
+			if err != nil {
+				cfail("calls clause: %v", err)
+			}
+			v := ctx.materialise(ctx.coerce(ctx.eval(ex), args[i].t))
+			eqs = append(eqs, fmt.Sprintf("(= %s %s)", v.term, args[i].term))
+		}
+		gk := ghostCallKey(k)
+		cur, ok := f.curHeap[gk]
+		if !ok {
+			cur = "false"
+		}
+		m := e.define(e.fresh(gk+"!m"), "Bool", and(eqs...))
+		matches[k] = m
+		f.curHeap[gk] = e.define(e.fresh(gk), "Bool", or(cur, m))
+	}
+	return matches
+}
+
+// modifiesSpecial: "elems(T)" names the element heap of []T, "map(K,V)" the heaps of map[K]V.
+func (e *FnEnc) modifiesSpecial(m string, pkg *types.Package) ([]string, bool) {
+	c := &evalCtx{f: &frame{enc: e}, pkg: pkg}
+	switch {
+	case strings.HasPrefix(m, "elems(") && strings.HasSuffix(m, ")"):
+		t := c.resolveType(m[6 : len(m)-1])
+		k, s := e.elemHeapKey(t)
+		e.R.heapConst(k, s)
+		return []string{k}, true
+	case strings.HasPrefix(m, "map(") && strings.HasSuffix(m, ")"):
+		t := c.resolveType("map[" + strings.Replace(m[4:len(m)-1], ";", "]", 1))
+		mt, ok := t.Underlying().(*types.Map)
+		if !ok {
+			return nil, false
+		}
+		vk, vs, pk, ps := e.mapHeapKeys(mt)
+		e.R.heapConst(vk, vs)
+		e.R.heapConst(pk, ps)
+		return []string{vk, pk}, true
+	}
+	return nil, false
 }
